@@ -258,11 +258,16 @@ func (s *Scope) Decorate(decorator interface{}, opts ...DecorateOption) error {
 	if err != nil {
 		return err
 	}
+	seen := make(map[key]struct{}, len(keys))
 	for _, k := range keys {
-		if _, ok := s.decorators[k]; ok {
+		_, dup := seen[k]
+		if _, ok := s.decorators[k]; ok || dup {
 			return newErrInvalidInput(
 				fmt.Sprintf("cannot decorate using function %v: %s already decorated", dn.dtype, k), nil)
 		}
+		seen[k] = struct{}{}
+	}
+	for _, k := range keys {
 		s.decorators[k] = dn
 	}
 
